@@ -195,7 +195,28 @@ template<class T> T& dv_get(T& x) { return x; }
 template<class T> T& dv_get(std::reference_wrapper<T>& x) { return x.get(); }
 extern "C" void dv_log_dump(void);
 extern "C" void dv_drops_dump(void);
+struct DvDrop { const char* uid; int n; explicit DvDrop(const char* u) : uid(u), n(0) {} ~DvDrop() { printf("cbdrop %s %d\\n", uid, n); } };
 '''
+
+
+def cpp_callback(g, prog, uid, t, invocations):
+    """a std::function argument: prints what it receives, answers the planned values; the captured DvDrop prints when the
+    function object Rust owns is destroyed (exactly once, whether the binding moved or copied it)"""
+    ret = "void" if t[2][0] == "unit" else cpp_type(prog, t[2])
+    ptypes = [cpp_type(prog, a) for a in t[1]]
+    body = 'int j = d->n++; printf("cbin %s %%d", j);' % uid
+    h = CppGen(prog)
+    for i, a in enumerate(t[1]):
+        body += ' printf(" a%d="); %s' % (i, h.show(a, "a%d" % i))
+    body += ' printf("\\n");'
+    if t[2][0] != "unit":
+        body += " switch (j) {"
+        for j, inv in enumerate(invocations):
+            body += " case %d: return %s;" % (j, h.arg(t[2], inv["ret"]))
+        body += " } return %s();" % ret
+    assert not h.pre
+    return 'std::function<%s(%s)>([d = std::make_shared<DvDrop>("%s")](%s) mutable -> %s { %s })' % (
+        ret, ", ".join(ptypes), uid, ", ".join("%s a%d" % (ty, i) for i, ty in enumerate(ptypes)), ret, body)
 
 
 def render_cpp(prog, plan, header_names):
@@ -207,7 +228,14 @@ def render_cpp(prog, plan, header_names):
         utf8 = bool(direct_utf8_params(m))
         for k, c in enumerate(p_["calls"]):
             g = CppGen(prog)
-            args = [g.arg(q[1], c["args"][q[0]]) for q in m["params"] if q[1][0] != "write"]
+            args = []
+            for q in m["params"]:
+                if q[1][0] == "write":
+                    continue
+                if q[1][0] == "cb":
+                    args.append(cpp_callback(g, prog, "%d_%d_%s" % (p_["mid"], k, q[0]), q[1], c.get("cbs", {}).get(q[0], [])))
+                else:
+                    args.append(g.arg(q[1], c["args"][q[0]]))
             if m["self"] is None:
                 callee = "%s::%s" % (it["name"], m["name"])
             elif it["kind"] == "opaque":
@@ -242,18 +270,19 @@ def render_cpp(prog, plan, header_names):
 
             if ret is None and not wparam:
                 inner = "%s; %s" % ("rr_dummy" if False else "", body)
-            src += '    printf("ret %d %d ");\n' % (p_["mid"], k)
+            # the call comes first: callbacks print their own lines while it runs
+            head = 'printf("ret %d %d ");' % (p_["mid"], k)
             if utf8:
-                src += "    auto rr = %s;\n" % call
+                src += "    auto rr = %s;\n    %s\n" % (call, head)
                 if ret is None and not wparam:
                     src += '    if (rr.is_err()) { printf("utf8err"); } else { %s }\n' % body
                 else:
                     src += '    if (rr.is_err()) { printf("utf8err"); } else { auto ov = std::move(rr).ok(); auto&& r = dv_get(*ov); %s }\n' % body
             else:
                 if ret is None and not wparam:
-                    src += "    %s;\n    %s\n" % (call, body)
+                    src += "    %s;\n    %s\n    %s\n" % (call, head, body)
                 else:
-                    src += "    auto&& r = %s;\n    %s\n" % (call, body)
+                    src += "    auto&& r = %s;\n    %s\n    %s\n" % (call, head, body)
             for (a, n, p) in ([] if call_rejected(m, c) else g.mut_after):
                 src += '    printf(" mut=["); for (size_t i = 0; i < %d; i++) { if (i) printf(","); %s } printf("]");\n' % (n, g.show(["prim", p], "%s[i]" % a))
             src += '    printf("\\n");\n  }\n'
